@@ -778,13 +778,14 @@ impl ProtocolState {
     ensures r == !rm_blocked(*self, id),
 //@end
 
-//@fn gneiss-mqtt/src/protocol.rs ProtocolState::dequeue_operation props=C08,C09,C10,C07
+//@fn gneiss-mqtt/src/protocol.rs ProtocolState::dequeue_operation props=C08,C09,C10,C07,C01
     ensures
         r == next_sendable(*old(self), mode),
         // exactly the head of the queue it came from is consumed; nothing else moves
         ({
             let pre = *old(self);
             let post = *final(self);
+            // (C01: an id leaves a queue only by becoming the operation being written - nothing is dropped on a blocked head)
             &&& r is None ==> post == pre
             &&& r is Some && pre.high_priority_operation_queue@.len() > 0 ==>
                     post.high_priority_operation_queue@ == pre.high_priority_operation_queue@.subrange(1, pre.high_priority_operation_queue@.len() as int)
@@ -881,17 +882,13 @@ impl ProtocolState {
 //@end
 
 //@fn gneiss-mqtt/src/protocol.rs ProtocolState::start_operation_ack_timeout props=C18,C11
-    requires
-        // no-panic condition of `now + timeout` (std: "overflow when adding duration to instant")
-        (old(self).operations@.contains_key(id) && op_ack_timeout(old(self).operations@[id]) is Some)
-            ==> now.nanos + op_ack_timeout(old(self).operations@[id])->Some_0.nanos <= INSTANT_MAX_NANOS(),
+    // no precondition: any timeout the builders accept (C11; was finding F-DURATION-OVERFLOW)
     ensures
         *final(self) == (ProtocolState { operation_ack_timeouts: final(self).operation_ack_timeouts, ..*old(self) }),
-        // armed iff the operation was submitted with a timeout T, for exactly now + T
-        (old(self).operations@.contains_key(id) && op_ack_timeout(old(self).operations@[id]) is Some) ==>
-            heap_view(final(self).operation_ack_timeouts) == heap_view(old(self).operation_ack_timeouts).insert(
-                Reverse(OperationTimeoutRecord { id, timeout: Instant { nanos: (now.nanos + op_ack_timeout(old(self).operations@[id])->Some_0.nanos) as u128 } })),
-        !(old(self).operations@.contains_key(id) && op_ack_timeout(old(self).operations@[id]) is Some) ==>
+        // armed iff the operation was submitted with a timeout T whose deadline can be represented, for exactly now + T
+        ack_deadline(*old(self), id, now) matches Some(d) ==>
+            heap_view(final(self).operation_ack_timeouts) == heap_view(old(self).operation_ack_timeouts).insert(Reverse(OperationTimeoutRecord { id, timeout: d })),
+        ack_deadline(*old(self), id, now) is None ==>
             heap_view(final(self).operation_ack_timeouts) == heap_view(old(self).operation_ack_timeouts),
 //@end
 
@@ -951,10 +948,12 @@ impl ProtocolState {
 // what a driver may rely on between calls
 pub open spec fn inv(s: ProtocolState) -> bool { s.wf() && s.cur_ok() }
 
-// A-ACKTIMEOUT-RANGE (see finding F-ACKTIMEOUT-OVERFLOW): `now + ack_timeout` is representable
-pub open spec fn ack_timeouts_in_range(s: ProtocolState, now: Instant) -> bool {
-    forall|k: u64| #[trigger] s.operations@.contains_key(k) ==>
-        (op_ack_timeout(s.operations@[k]) matches Some(t) ==> now.nanos + t.nanos <= INSTANT_MAX_NANOS())
+// C18: the deadline of operation `id` when its packet is fully written at `now`: now + T for an operation submitted with an ack
+// timeout T, none without one - and none either when now + T cannot be represented as a time point (it never comes due)
+pub open spec fn ack_deadline(s: ProtocolState, id: u64, now: Instant) -> Option<Instant> {
+    if s.operations@.contains_key(id) && op_ack_timeout(s.operations@[id]) is Some && now.nanos + op_ack_timeout(s.operations@[id])->Some_0.nanos <= INSTANT_MAX_NANOS() {
+        Some(Instant { nanos: (now.nanos + op_ack_timeout(s.operations@[id])->Some_0.nanos) as u128 })
+    } else { None }
 }
 
 pub open spec fn due_timeout_for_current(s: ProtocolState) -> bool {
@@ -984,7 +983,6 @@ impl ProtocolState {
 
 //@fn gneiss-mqtt/src/protocol.rs ProtocolState::on_current_operation_fully_written props=C09,C18,C07,C01,C11
     requires old(self).wf(), old(self).cur_ok(), old(self).current_operation is Some, clock_ok(now),
-        ack_timeouts_in_range(*old(self), now),
         // an ackable packet is only ever encoded after acquire_packet_id_for_operation bound it
         ({ let op = old(self).operations@[old(self).current_operation->Some_0]; takes_packet_id(*op.packet) ==> op.packet_id is Some }),
         old(self).state == ProtocolStateType::Connected || old(self).state == ProtocolStateType::PendingConnack,
@@ -1011,9 +1009,9 @@ impl ProtocolState {
             // C07: once a DISCONNECT has been written nothing further is sent
             &&& post.state == (if *op.packet is Disconnect { ProtocolStateType::PendingDisconnect } else { pre.state })
             // C18: the ack timeout starts now (fully written), never while queued
-            &&& (!pre.current_operation_ack_timeout_elapsed ==> (op_ack_timeout(op) matches Some(t) ==> heap_view(post.operation_ack_timeouts) == heap_view(pre.operation_ack_timeouts).insert(
-                    Reverse(OperationTimeoutRecord { id, timeout: Instant { nanos: (now.nanos + t.nanos) as u128 } }))))
-            &&& ((!pre.current_operation_ack_timeout_elapsed && op_ack_timeout(op) is None) ==> heap_view(post.operation_ack_timeouts) == heap_view(pre.operation_ack_timeouts))
+            &&& (!pre.current_operation_ack_timeout_elapsed ==> (ack_deadline(pre, id, now) matches Some(d) ==> heap_view(post.operation_ack_timeouts) == heap_view(pre.operation_ack_timeouts).insert(
+                    Reverse(OperationTimeoutRecord { id, timeout: d }))))
+            &&& ((!pre.current_operation_ack_timeout_elapsed && ack_deadline(pre, id, now) is None) ==> heap_view(post.operation_ack_timeouts) == heap_view(pre.operation_ack_timeouts))
             // ... unless its earlier deadline (a QoS 2 publish whose PUBREL was being written) passed during the write: due at once
             &&& (pre.current_operation_ack_timeout_elapsed ==> heap_view(post.operation_ack_timeouts) == heap_view(pre.operation_ack_timeouts).insert(
                     Reverse(OperationTimeoutRecord { id, timeout: now })))
@@ -1108,7 +1106,6 @@ pub open spec fn completion_frame_but_timeouts(pre: ProtocolState, post: Protoco
 pub open spec fn sq_pre(s: ProtocolState, ctx: ServiceContext) -> bool {
     &&& inv(s)
     &&& clock_ok(ctx.current_time)
-    &&& ack_timeouts_in_range(s, ctx.current_time)
     &&& s.next_packet_id >= 1
     // the half-encoded operation (if any) already holds its packet id
     &&& (s.current_operation matches Some(c) ==> (takes_packet_id(*s.operations@[c].packet) ==> s.operations@[c].packet_id is Some))
@@ -1145,7 +1142,7 @@ impl ProtocolState {
         final(self).state == ProtocolStateType::PendingConnack ==> hp_only_connect(*final(self)),
 //@@loop 0
         invariant
-            self.wf(), self.cur_ok(), clock_ok(context.current_time), ack_timeouts_in_range(*self, context.current_time),
+            self.wf(), self.cur_ok(), clock_ok(context.current_time),
             context.current_time == old(context).current_time,
             old(context).to_socket@.is_prefix_of(context.to_socket@),
             self.current_operation matches Some(c) ==> (takes_packet_id(*self.operations@[c].packet) ==> self.operations@[c].packet_id is Some),
